@@ -282,13 +282,41 @@ def export_routine(routine, names):
     return export_x(list(folded(routine).children), names)
 
 
+def _export_with_return(stmts, names, cont):
+    """RETURN (outside loops) has no MiniF counterpart: it is eliminated while exporting.  `cont` = the
+    (already exported) statements that run after `stmts` when control falls through.  A RETURN drops the rest
+    of the list and the continuation; an IF that contains a RETURN receives the continuation in both branches:
+        [if (c) then A else B end if; REST] ; cont   ==>   ite c (A ; REST ; cont) (B ; REST ; cont)
+    with the same rule applied inside A and B."""
+    from psyclone.psyir import nodes as N
+    out = []
+    for pos, c in enumerate(stmts):
+        if isinstance(c, N.Return):
+            return out
+        if c.walk(N.Return):
+            if not isinstance(c, N.IfBlock):
+                raise Unsupported("RETURN inside " + type(c).__name__)
+            rest = _export_with_return(stmts[pos + 1:], names, cont)
+            els = list(c.else_body.children) if c.else_body is not None else []
+            out.append(["ite", minif.export_expr(c.condition, names),
+                        ["seqs"] + _export_with_return(list(c.if_body.children), names, rest),
+                        ["seqs"] + _export_with_return(els, names, rest)])
+            return out
+        out.append(export_x(c, names))
+    return out + cont
+
+
 def export_x(node, names):
     """minif.export_stmt plus array-section assignments (constant section bounds)"""
     from psyclone.psyir import nodes as N
     if isinstance(node, (list, tuple)):
+        if any(c.walk(N.Return) for c in node):
+            return ["seqs"] + _export_with_return(list(node), names, [])
         return ["seqs"] + [export_x(c, names) for c in node]
     if isinstance(node, N.Schedule):
         return export_x(list(node.children), names)
+    if isinstance(node, N.Loop) and node.walk(N.Return):
+        raise Unsupported("RETURN inside a loop")
     if isinstance(node, N.Assignment) and node.walk(N.Range):
         return _expand_section_assignment(node, names)
     if isinstance(node, N.IfBlock):
